@@ -312,12 +312,31 @@ class Exec:
         """inductive lemmas at the return point: for `forall k in [lo, hi]: stmt(k)` the obligations are the base case and the
         step for an arbitrary k (up: stmt(k) => stmt(k+1); down: stmt(k) => stmt(k-1)); the induction scheme itself is trusted.
         A proved lemma is available (as a quantified hypothesis) to the later lemmas and to the postconditions."""
+        facts = {}      # lemma name -> formulas it contributed to the path condition
+        full = s
         for lem in self.contract.lemmas:
+            s = full
+            if 'uses' in lem:
+                # hypothesis selection: of the earlier lemmas only the named ones are visible (fewer quantifiers, steadier proofs)
+                hide = [g for nm, gs in facts.items() if nm not in lem['uses'] for g in gs]
+                s = full.copy()
+                s.pc = [f for f in full.pc if not any(f is g for g in hide)]
+            n_before = len(full.pc)
+            self._prove_lemma(lem, s, node, full)
+            facts[lem['name']] = full.pc[n_before:]
+
+    def _prove_lemma(self, lem, s, node, full):
+        for lem in [lem]:
+            needs = lem.get('needs', ())
+            if any('spec:' + nm not in s.ghost for nm in needs):
+                continue        # the lemma talks about ghost functions this path never created (e.g. an early return)
+            for nm in needs:
+                self.spec_funcs[nm] = s.ghost['spec:' + nm]      # this path's instance, not a stale one
             if 'var' not in lem:
                 # plain cut lemma at the return point (no induction): proved from the path facts, then available
                 vc = self.emit(s, 'lemma:%s' % lem['name'], self.eval_spec(lem['stmt'], s), node, lem['stmt'])
                 if vc is None or vc.name not in self.unassumed_lemmas:
-                    s.assume(self.eval_spec(lem['stmt'], s, role='hyp'))
+                    full.assume(self.eval_spec(lem['stmt'], s, role='hyp'))
                 continue
             var, direction = lem['var'], lem.get('direction', 'up')
             lo = self.eval_spec_value(lem['lo'], s)
@@ -336,6 +355,11 @@ class Exec:
                 s1.assume(z3.And(to_z3(s_lt(lo, k)), to_z3(s_le(k, hi))))
                 nxt = k - 1
             s1.assume(self.eval_spec(lem['stmt'], s1, extra={var: k}, role='hyp'))
+            for n_, fact in enumerate(lem.get('step_facts', ())):
+                # cut inside the step: a fact about the arbitrary k (typically a ground fact of a background theory that
+                # the step needs as a term), proved first, then available to the step
+                self.emit(s1, 'lemma:%s/step-fact#%d' % (lem['name'], n_), self.eval_spec(fact, s1, extra={var: k}), node, fact)
+                s1.assume(self.eval_spec(fact, s1, extra={var: k}, role='hyp'))
             self.emit(s1, 'lemma:%s/step' % lem['name'], self.eval_spec(lem['stmt'], s1, extra={var: nxt}), node, lem['stmt'])
             q = z3.Int(fresh_name(var))
             body = self.eval_spec(lem['stmt'], s, extra={var: q}, role='hyp')
@@ -346,7 +370,11 @@ class Exec:
                 allq = z3.ForAll([q], z3.Implies(guard, to_z3(body)), patterns=pats) if pats else z3.ForAll([q], z3.Implies(guard, to_z3(body)))
             except z3.Z3Exception:
                 allq = z3.ForAll([q], z3.Implies(guard, to_z3(body)))
-            s.assume(allq)
+            full.assume(allq)
+            # the end-point instance, stated explicitly: the bound variable often occurs only in arithmetic guards,
+            # where E-matching has no term to instantiate it with
+            end = hi if direction == 'up' else lo
+            full.assume(z3.Implies(to_z3(s_le(lo, hi)), to_z3(self.eval_spec(lem['stmt'], s, extra={var: to_int(end)}, role='hyp'))))
             self.assumed.append('induction scheme for lemma %s (base and step are proved obligations)' % lem['name'])
 
     # ---------------------------------------------------------------------------------------
@@ -376,6 +404,10 @@ class Exec:
                     continue
                 raise Unsupported('parameter %s has no type in the contract' % n)
             st.env[n] = self.make_param(st, n, spec)
+        for n in names:
+            # entry value of every parameter under the name <param>_0 (parameters are mutable locals in Python)
+            if n in st.env and n + '_0' not in st.env:
+                st.env[n + '_0'] = st.env[n]
 
     def make_param(self, st, n, spec):
         if callable(spec):
@@ -2332,6 +2364,11 @@ class Exec:
                     raise Unsupported('missing argument %s in call of %s' % (p, qual))
                 vals.append(ast.literal_eval(defaults[idx]))
         env = dict(zip(params, vals))
+        for p_ in params:
+            if env[p_] is None and con.params.get(p_) == 'sym':
+                env[p_] = NONE_SYM          # None passed where the callee's contract types the parameter as a symbol
+        for p_ in params:
+            env.setdefault(p_ + '_0', env[p_])
         for r in con.requires:
             c = self.eval_spec(r, st, extra=env)
             self.emit(st, 'pre-call:%s' % qual.split('.')[-1], to_z3(c), node, r)
@@ -2356,6 +2393,11 @@ class Exec:
         self.entry = pre            # old(...) in the callee's postconditions refers to the state before the call
         try:
             for e in con.public_ensures:
+                if isinstance(e, dict):
+                    # clause stated with spec functions that only some callers define: not assumed where they are missing
+                    if any(nm not in self.spec_funcs for nm in e['needs']):
+                        continue
+                    e = e['text']
                 st.assume(self.eval_spec(e, st, extra=env2, role='hyp'))
         finally:
             self.entry = saved_entry
